@@ -13,10 +13,10 @@ func extraGen(kind string, seed int64, prop string, idx int) (*Case, bool) {
 		return &Case{Kind: kind, G: &GraphCase{Batch: 2000, Seed: r.Int63()}}, true
 	case "small":
 		return &Case{Kind: kind, H: genSmall(idx, caseRand(seed, kind, idx))}, true
-	case "diff:c06", "diff:c15", "diff:c16", "diff:c16deco", "diff:c17", "diff:c15big", "diff:c16big", "diff:c17big", "diff:c16graph", "diff:c17graph", "diff:c06graph":
+	case "diff:c06", "diff:c15", "diff:c16", "diff:c16deco", "diff:c17", "diff:c15big", "diff:c16big", "diff:c17big", "diff:c16graph", "diff:c17graph", "diff:c06graph", "diff:c16defer":
 		r := caseRand(seed, kind, idx)
 		prof := map[string]string{"diff:c06": "rejects", "diff:c15": "enc", "diff:c16": "order", "diff:c16deco": "orderdeco", "diff:c17": "dry",
-			"diff:c15big": "large", "diff:c16big": "large", "diff:c17big": "large", "diff:c16graph": "largegraph", "diff:c17graph": "largegraph", "diff:c06graph": "largegraph"}[kind]
+			"diff:c15big": "large", "diff:c16big": "large", "diff:c17big": "large", "diff:c16graph": "largegraph", "diff:c17graph": "largegraph", "diff:c06graph": "largegraph", "diff:c16defer": "orderdefer"}[kind]
 		h := genHistory(r, profileByName(prof))
 		return &Case{Kind: kind, H: h, X: map[string]interface{}{"tseed": r.Int63n(1 << 40)}}, true
 	case "diff:c16block":
@@ -102,7 +102,7 @@ func extraCheck(prop string, c *Case, trace bool) (*CaseResult, bool) {
 		return checkC06(c, trace), true
 	case c.Kind == "diff:c15" || c.Kind == "diff:c15big":
 		return checkC15(c, trace), true
-	case c.Kind == "diff:c16" || c.Kind == "diff:c16deco" || c.Kind == "diff:c16block" || c.Kind == "diff:c16big" || c.Kind == "diff:c16graph":
+	case c.Kind == "diff:c16" || c.Kind == "diff:c16deco" || c.Kind == "diff:c16block" || c.Kind == "diff:c16big" || c.Kind == "diff:c16graph" || c.Kind == "diff:c16defer":
 		return checkC16(c, trace), true
 	case c.Kind == "diff:c17" || c.Kind == "diff:c17big" || c.Kind == "diff:c17graph":
 		return checkC17(c, trace), true
@@ -127,7 +127,7 @@ func extraJobs(prop, tier string) []JobSpec {
 		return []JobSpec{{"diff:c15", n(40000, 2000000)}}
 	case "C16":
 		// diff:c16deco: group-heavy blocks with decorators at several levels of deeper trees and exported consumers
-		return []JobSpec{{"diff:c16", n(40000, 2000000)}, {"diff:c16deco", n(15000, 700000)}, {"diff:c16block", n(15000, 700000)}}
+		return []JobSpec{{"diff:c16", n(40000, 2000000)}, {"diff:c16deco", n(15000, 700000)}, {"diff:c16block", n(15000, 700000)}, {"diff:c16defer", n(25000, 1000000)}}
 	case "C17":
 		return []JobSpec{{"diff:c17", n(40000, 2000000)}}
 	case "C05":
